@@ -3,6 +3,8 @@
 set -e
 cd "$(dirname "$0")"
 mkdir -p .work evidence replays
+# build output of earlier runs (possibly of other trees) must never be reused: cargo's freshness test is mtime-based
+rm -rf .work/ktarget .work/replay-target .work/replay-target-alt .work/replay-src .work/mutout
 python3 -c "import sys; sys.path.insert(0, 'lib'); import vengine, kengine, props, vgen, rsrc"
 verus --version >/dev/null
 cargo kani --version >/dev/null
